@@ -98,12 +98,22 @@ end Batch
 
 /-! ## the decision function -/
 
+/-- the resolver returns a record for the address of the record it was given -/
 def AddrPreserving (res : Resolver) : Prop := ∀ s r, res s = some r → r.addr = s.addr
 
-/-- with an address-preserving resolver and a record stored under the caller's address, the batch
+/-- what the proofs need (weaker than `AddrPreserving op.res`): applied to a record stored under the
+caller's address, the resolver returns a record for that address.  Also covers an "overwrite"
+resolver that returns the caller's own record. -/
+def KeyPreserving (op : WOp) : Prop :=
+  ∀ s r, s.addr.key = op.svr.addr.key → op.res s = some r → r.addr.key = op.svr.addr.key
+
+theorem AddrPreserving.keyPreserving {op : WOp} (h : AddrPreserving op.res) : KeyPreserving op := by
+  intro s r hs hr; rw [h s r hr]; exact hs
+
+/-- with a key-preserving resolver and a record stored under the caller's address, the batch
 `decide` produces writes the caller's own key, and a saved record carries that address -/
 theorem decide_key {op : WOp} {ex : Option Server} {now : Int} {b : Batch} {r : WResult}
-    (hap : AddrPreserving op.res) (hex : ∀ e, ex = some e → e.addr.key = op.svr.addr.key)
+    (hap : KeyPreserving op) (hex : ∀ e, ex = some e → e.addr.key = op.svr.addr.key)
     (h : decide op ex now = .inr (b, r)) : b.key = op.svr.addr.key := by
   unfold decide at h
   split at h
@@ -114,7 +124,7 @@ theorem decide_key {op : WOp} {ex : Option Server} {now : Int} {b : Batch} {r : 
     · rename_i r' hr
       cases h
       show r'.addr.key = _
-      rw [hap _ _ hr]; exact hex _ rfl
+      exact hap _ _ (hex _ rfl) hr
   · cases h
   · rename_i e
     split at h
@@ -123,7 +133,7 @@ theorem decide_key {op : WOp} {ex : Option Server} {now : Int} {b : Batch} {r : 
       · rename_i r' hr
         cases h
         show r'.addr.key = _
-        rw [hap _ _ hr]; exact hex _ rfl
+        exact hap _ _ (hex _ rfl) hr
     · cases h; rfl
   · cases h
   · rename_i e
@@ -133,7 +143,7 @@ theorem decide_key {op : WOp} {ex : Option Server} {now : Int} {b : Batch} {r : 
       · rename_i r' hr
         cases h
         show r'.addr.key = _
-        rw [hap _ _ hr]; exact hex _ rfl
+        exact hap _ _ (hex _ rfl) hr
     · cases h; rfl
 
 /-! ## what a store change other than a commit looks like to a watcher -/
@@ -242,7 +252,7 @@ structure WInv (st : RStore) (w : Writer) : Prop where
     w.pc = .exec v ex now b r → decide w.op ex now = .inr (b, r)
   execKey : ∀ (v : Nat) (ex : Option Server) (now : Int) (b : Batch) (r : WResult),
     w.pc = .exec v ex now b r → b.key = w.key
-  resAP : AddrPreserving w.op.res
+  resAP : KeyPreserving w.op
 
 structure Inv (s : Sys) : Prop where
   tokLt : ∀ (i : Nat) (w : Writer), s.clients[i]? = some (.writer w) → w.tok < s.nextTok
@@ -254,7 +264,7 @@ structure Inv (s : Sys) : Prop where
   winv : ∀ (i : Nat) (w : Writer), s.clients[i]? = some (.writer w) → WInv s.store w
 
 /-- a writer that carries no WATCH version satisfies its local invariant in any store -/
-theorem WInv.of_ver_none {st : RStore} {w : Writer} (hv : w.pc.ver? = none) (hap : AddrPreserving w.op.res) :
+theorem WInv.of_ver_none {st : RStore} {w : Writer} (hv : w.pc.ver? = none) (hap : KeyPreserving w.op) :
     WInv st w := by
   refine ⟨?_, ?_, ?_, ?_, ?_, hap⟩
   · intro v h; rw [hv] at h; cases h
@@ -750,5 +760,629 @@ theorem inv_run {s : Sys} (h : Inv s) (es : List Ev) : Inv (s.run es) := by
   induction es generalizing s with
   | nil => exact h
   | cons e es ih => exact ih (inv_step h e)
+
+/-! ## initial states -/
+
+/-- well-formed initial systems: every writer is about to start (`SET NX`), tokens are distinct and
+below the fresh-token counter, resolvers return records for the address they were given, stored
+records are keyed by their address, existing lock cells are accounted for by the ghost maps -/
+structure Init (s : Sys) : Prop where
+  tokLt : ∀ (i : Nat) (w : Writer), s.clients[i]? = some (.writer w) → w.tok < s.nextTok
+  tokInj : ∀ (i j : Nat) (wi wj : Writer), s.clients[i]? = some (.writer wi) → s.clients[j]? = some (.writer wj) →
+    wi.tok = wj.tok → i = j
+  atStart : ∀ (i : Nat) (w : Writer), s.clients[i]? = some (.writer w) → w.pc = .setnx ∧ w.committed = false
+  resAP : ∀ (i : Nat) (w : Writer), s.clients[i]? = some (.writer w) → KeyPreserving w.op
+  keyed : ∀ (k : Nat) (r : Server), s.store.items[k]? = some r → r.addr.key = k
+  lastLt : ∀ (k t : Nat), s.store.lastOf k = some t → t < s.nextTok
+  valLast : ∀ (k : Nat) (c : LockCell), s.store.locks[k]? = some c → s.store.lastOf k = some c.token
+  logNil : s.log = []
+
+theorem inv_init {s : Sys} (h : Init s) : Inv s :=
+  ⟨h.tokLt, h.tokInj, h.lastLt, h.valLast, h.keyed, fun i w hc =>
+    WInv.of_ver_none (by rw [(h.atStart i w hc).1]; rfl) (h.resAP i w hc)⟩
+
+/-! ## rows change only by a commit -/
+
+namespace RStore
+
+theorem lockSetNX_rows (st : RStore) (k tok : Nat) : (st.lockSetNX k tok).1.RowsEq st := by
+  unfold lockSetNX; split
+  · exact RowsEq.refl _
+  · exact ⟨rfl, rfl, rfl, rfl⟩
+
+theorem lockDel_rows (st : RStore) (k : Nat) : (st.lockDel k).RowsEq st := by
+  unfold lockDel; split
+  · exact RowsEq.refl _
+  · exact ⟨rfl, rfl, rfl, rfl⟩
+
+theorem lockExpire_rows (st : RStore) (k : Nat) (d : Bool) : (st.lockExpire k d).RowsEq st := by
+  unfold lockExpire; split
+  · exact RowsEq.refl _
+  · split <;> exact ⟨rfl, rfl, rfl, rfl⟩
+
+end RStore
+
+/-- a batch is a function of the rows only -/
+theorem Batch.apply_rows_congr (b : Batch) {x y : RStore} (h : x.RowsEq y) : (b.apply x).RowsEq (b.apply y) := by
+  obtain ⟨h1, h2, h3, h4⟩ := h
+  cases b with
+  | save svr now =>
+    refine ⟨?_, ?_, ?_, ?_⟩
+    · show x.items.insert _ _ = y.items.insert _ _; rw [h1]
+    · show x.updated.insert _ _ = y.updated.insert _ _; rw [h2]
+    · show (match svr.refreshedAt with | none => x.refreshed.erase _ | some t => x.refreshed.insert _ t) =
+        (match svr.refreshedAt with | none => y.refreshed.erase _ | some t => y.refreshed.insert _ t)
+      rw [h3]
+    · show RStore.setStatus x.statusSet _ _ = RStore.setStatus y.statusSet _ _; rw [h4]
+  | remove k =>
+    refine ⟨?_, ?_, ?_, ?_⟩
+    · show x.items.erase _ = y.items.erase _; rw [h1]
+    · show x.updated.erase _ = y.updated.erase _; rw [h2]
+    · show x.refreshed.erase _ = y.refreshed.erase _; rw [h3]
+    · show RStore.clearStatus x.statusSet _ = RStore.clearStatus y.statusSet _; rw [h4]
+
+/-- Frame of one writer command: either it is the EXEC of a writer whose WATCH is still valid — then
+the store is the batch applied and exactly that commit is reported — or no row changes and nothing
+is reported. -/
+theorem wstep_frame (st : RStore) (clock : Int) (fresh i : Nat) (w : Writer) :
+    (∃ (v : Nat) (ex : Option Server) (now : Int) (b : Batch) (r : WResult),
+        w.pc = .exec v ex now b r ∧ st.verOf w.key = v ∧
+        wstep st clock fresh i w =
+          (b.apply st, { w with pc := .unwatch (.finished r), committed := true }, false, some ⟨i, st.items[w.key]?, b⟩)) ∨
+    ((wstep st clock fresh i w).1.RowsEq st ∧ (wstep st clock fresh i w).2.2.2 = none) := by
+  cases hpc : w.pc with
+  | exec v ex now b r =>
+    by_cases hv : st.verOf w.key = v
+    · refine Or.inl ⟨v, ex, now, b, r, rfl, hv, ?_⟩
+      simp only [wstep, hpc]
+      rw [if_pos (show st.verOf w.op.svr.addr.key = v from hv)]
+      rfl
+    · refine Or.inr ?_
+      simp only [wstep, hpc]
+      rw [if_neg (show ¬ st.verOf w.op.svr.addr.key = v from hv)]
+      exact ⟨RStore.RowsEq.refl _, by first | rfl | trivial⟩
+  | setnx =>
+    refine Or.inr ?_
+    simp only [wstep, hpc]
+    split
+    · exact ⟨RStore.lockSetNX_rows _ _ _, by first | rfl | trivial⟩
+    · exact ⟨RStore.RowsEq.refl _, by first | rfl | trivial⟩
+  | relDel a =>
+    refine Or.inr ?_
+    simp only [wstep, hpc]
+    exact ⟨RStore.lockDel_rows _ _, by first | rfl | trivial⟩
+  | watch => refine Or.inr ?_; simp only [wstep, hpc]; exact ⟨RStore.RowsEq.refl _, by first | rfl | trivial⟩
+  | ownGet v =>
+    refine Or.inr ?_; simp only [wstep, hpc]
+    split
+    · exact ⟨RStore.RowsEq.refl _, by first | rfl | trivial⟩
+    · split <;> exact ⟨RStore.RowsEq.refl _, by first | rfl | trivial⟩
+  | hget v =>
+    refine Or.inr ?_; simp only [wstep, hpc]
+    split <;> exact ⟨RStore.RowsEq.refl _, by first | rfl | trivial⟩
+  | unwatch a => refine Or.inr ?_; simp only [wstep, hpc]; exact ⟨RStore.RowsEq.refl _, by first | rfl | trivial⟩
+  | relWatch a => refine Or.inr ?_; simp only [wstep, hpc]; exact ⟨RStore.RowsEq.refl _, by first | rfl | trivial⟩
+  | relGet a =>
+    refine Or.inr ?_; simp only [wstep, hpc]
+    split
+    · exact ⟨RStore.RowsEq.refl _, by first | rfl | trivial⟩
+    · split <;> exact ⟨RStore.RowsEq.refl _, by first | rfl | trivial⟩
+  | relUnwatch a => refine Or.inr ?_; simp only [wstep, hpc]; exact ⟨RStore.RowsEq.refl _, by first | rfl | trivial⟩
+  | done r => refine Or.inr ?_; simp only [wstep, hpc]; exact ⟨RStore.RowsEq.refl _, by first | rfl | trivial⟩
+
+/-- the event is the accepted EXEC of writer `i`, with batch `b` and result `r` -/
+def IsCommit (s : Sys) (e : Ev) (i : Nat) (w : Writer) (b : Batch) (r : WResult) : Prop :=
+  e = .step i ∧ s.clients[i]? = some (.writer w) ∧
+    ∃ (v : Nat) (ex : Option Server) (now : Int), w.pc = .exec v ex now b r ∧ s.store.verOf w.key = v
+
+/-- the system after writer `i` committed batch `b`: the batch applied, the writer on its way out with
+result `r`, the commit logged; nothing else changes -/
+def Sys.commitBy (s : Sys) (i : Nat) (w : Writer) (b : Batch) (r : WResult) : Sys :=
+  { s with store := b.apply s.store, clients := s.clients.set i (.writer { w with pc := .unwatch (.finished r), committed := true }), log := s.log ++ [⟨i, s.store.items[w.key]?, b⟩] }
+
+/-- Frame of one system event. -/
+theorem step_frame (s : Sys) (e : Ev) :
+    (∃ (i : Nat) (w : Writer) (b : Batch) (r : WResult), IsCommit s e i w b r ∧ s.step e = s.commitBy i w b r) ∨
+    ((s.step e).store.RowsEq s.store ∧ (s.step e).log = s.log) := by
+  cases e with
+  | expire k => exact Or.inr ⟨RStore.lockExpire_rows _ _ _, rfl⟩
+  | tick d => exact Or.inr ⟨RStore.RowsEq.refl _, rfl⟩
+  | step i =>
+    cases hc : s.clients[i]? with
+    | none => rw [Sys.step_none s i hc]; exact Or.inr ⟨RStore.RowsEq.refl _, rfl⟩
+    | some c =>
+      cases c with
+      | reader r => rw [Sys.step_reader s i r hc]; exact Or.inr ⟨RStore.RowsEq.refl _, rfl⟩
+      | writer w =>
+        rw [Sys.step_writer s i w hc]
+        rcases wstep_frame s.store s.clock s.nextTok i w with ⟨v, ex, now, b, r, hpc, hv, hr⟩ | ⟨hrows, hnone⟩
+        · refine Or.inl ⟨i, w, b, r, ⟨rfl, hc, v, ex, now, hpc, hv⟩, ?_⟩
+          rw [hr]; rfl
+        · refine Or.inr ⟨hrows, ?_⟩
+          show (match (wstep s.store s.clock s.nextTok i w).2.2.2 with | some c => s.log ++ [c] | none => s.log) = s.log
+          rw [hnone]
+
+/-- the accepted EXEC, as an equation -/
+theorem Sys.step_commit (s : Sys) (i : Nat) (w : Writer) (hc : s.clients[i]? = some (.writer w))
+    {v : Nat} {ex : Option Server} {now : Int} {b : Batch} {r : WResult}
+    (hpc : w.pc = .exec v ex now b r) (hv : s.store.verOf w.key = v) : s.step (.step i) = s.commitBy i w b r := by
+  rw [Sys.step_writer s i w hc]
+  have hr : wstep s.store s.clock s.nextTok i w =
+      (b.apply s.store, { w with pc := .unwatch (.finished r), committed := true }, false,
+        some ⟨i, s.store.items[w.key]?, b⟩) := by
+    simp only [wstep, hpc]
+    rw [if_pos (show s.store.verOf w.op.svr.addr.key = v from hv)]
+    rfl
+  rw [hr]; rfl
+
+/-- the logged batches applied in order -/
+def replay (st : RStore) (cs : List Commit) : RStore := cs.foldl (fun st c => c.batch.apply st) st
+
+theorem replay_rows_congr {x y : RStore} (h : x.RowsEq y) (cs : List Commit) : (replay x cs).RowsEq (replay y cs) := by
+  induction cs generalizing x y with
+  | nil => exact h
+  | cons c cs ih => exact ih (c.batch.apply_rows_congr h)
+
+theorem replay_append (st : RStore) (xs ys : List Commit) : replay st (xs ++ ys) = replay (replay st xs) ys := by
+  simp [replay, List.foldl_append]
+
+/-- the rows after any run are the logged commits replayed over the initial rows -/
+theorem run_replay (s : Sys) (es : List Ev) :
+    ∃ L : List Commit, (s.run es).log = s.log ++ L ∧ (s.run es).store.RowsEq (replay s.store L) := by
+  induction es generalizing s with
+  | nil => exact ⟨[], by simp [Sys.run], RStore.RowsEq.refl _⟩
+  | cons e es ih =>
+    obtain ⟨L, hL, hR⟩ := ih (s.step e)
+    rcases step_frame s e with ⟨i, w, b, r, _, heq⟩ | ⟨hrows, hlog⟩
+    · refine ⟨⟨i, s.store.items[w.key]?, b⟩ :: L, ?_, ?_⟩
+      · show ((s.step e).run es).log = _
+        rw [hL, heq]; simp [Sys.commitBy]
+      · show ((s.step e).run es).store.RowsEq _
+        rw [heq] at hR ⊢
+        exact hR
+    · refine ⟨L, ?_, ?_⟩
+      · show ((s.step e).run es).log = _
+        rw [hL, hlog]
+      · show ((s.step e).run es).store.RowsEq _
+        exact hR.trans (replay_rows_congr hrows L)
+
+/-! ## bounded progress -/
+
+def WPC.rank : WPC → Nat
+  | .setnx => 11
+  | .watch => 10
+  | .ownGet _ => 9
+  | .hget _ => 8
+  | .exec _ _ _ _ _ => 7
+  | .unwatch _ => 6
+  | .relWatch _ => 5
+  | .relGet _ => 4
+  | .relDel _ => 3
+  | .relUnwatch _ => 2
+  | .done _ => 0
+
+/-- termination measure of a registry write: attempts not yet started, then position in the attempt -/
+def Writer.measure (w : Writer) : Nat := w.attemptsLeft * 16 + w.pc.rank
+
+def Writer.finished (w : Writer) : Prop := ∃ r, w.pc = .done r
+
+instance (w : Writer) : Decidable w.finished :=
+  match h : w.pc with
+  | .done r => isTrue ⟨r, h⟩
+  | .setnx | .watch | .ownGet _ | .hget _ | .exec _ _ _ _ _ | .unwatch _ | .relWatch _ | .relGet _ | .relDel _
+  | .relUnwatch _ => isFalse (by rintro ⟨r, hr⟩; rw [h] at hr; cases hr)
+
+theorem Writer.measure_pos {w : Writer} (h : ¬ w.finished) : 0 < w.measure := by
+  unfold Writer.measure
+  cases hpc : w.pc <;> simp only [WPC.rank] <;> try omega
+  exact absurd ⟨_, hpc⟩ h
+
+/-- every storage command of an unfinished writer strictly decreases its measure, whatever the store holds -/
+theorem wstep_measure (st : RStore) (clock : Int) (fresh i : Nat) (w : Writer) (h : ¬ w.finished) :
+    (wstep st clock fresh i w).2.1.measure < w.measure := by
+  unfold Writer.measure
+  cases hpc : w.pc with
+  | done r => exact absurd ⟨_, hpc⟩ h
+  | setnx =>
+    simp only [wstep, hpc]
+    split
+    · simp only [WPC.rank]; omega
+    · split
+      · rename_i h0; simp only [WPC.rank, h0]; omega
+      · simp only [WPC.rank]; omega
+  | watch => simp only [wstep, hpc, WPC.rank]; omega
+  | ownGet v =>
+    simp only [wstep, hpc]
+    split
+    · simp only [WPC.rank]; omega
+    · split <;> (simp only [WPC.rank]; omega)
+  | hget v =>
+    simp only [wstep, hpc]
+    split <;> (simp only [WPC.rank]; omega)
+  | exec v ex now b r =>
+    simp only [wstep, hpc]
+    split <;> (simp only [WPC.rank]; omega)
+  | unwatch a => simp only [wstep, hpc, WPC.rank]; omega
+  | relWatch a => simp only [wstep, hpc, WPC.rank]; omega
+  | relGet a =>
+    simp only [wstep, hpc]
+    split
+    · simp only [WPC.rank]; omega
+    · split <;> (simp only [WPC.rank]; omega)
+  | relDel a => simp only [wstep, hpc, WPC.rank]; omega
+  | relUnwatch a =>
+    simp only [wstep, hpc]
+    cases a with
+    | finished r => simp only [WPC.rank]; omega
+    | retry =>
+      simp only
+      split
+      · rename_i h0; simp only [WPC.rank, h0]; omega
+      · simp only [WPC.rank]; omega
+
+theorem wstep_done (st : RStore) (clock : Int) (fresh i : Nat) (w : Writer) (h : w.finished) :
+    (wstep st clock fresh i w).2.1 = w := by
+  obtain ⟨r, hr⟩ := h
+  simp only [wstep, hr]
+
+/-- clients other than the stepped one are untouched -/
+theorem Sys.step_clients_of_ne (s : Sys) (e : Ev) (i : Nat) (h : e ≠ .step i) :
+    (s.step e).clients[i]? = s.clients[i]? := by
+  cases e with
+  | expire k => rfl
+  | tick d => rfl
+  | step j =>
+    have hji : ¬ i = j := fun e => h (by rw [e])
+    cases hc : s.clients[j]? with
+    | none => rw [Sys.step_none s j hc]
+    | some c =>
+      cases c with
+      | reader r => rw [Sys.step_reader s j r hc]; show (s.clients.set j _)[i]? = _; rw [getElem?_set_of_some hc]; simp [hji]
+      | writer w => rw [Sys.step_writer s j w hc]; show (s.clients.set j _)[i]? = _; rw [getElem?_set_of_some hc]; simp [hji]
+
+theorem Sys.step_clients_self_writer (s : Sys) (i : Nat) (w : Writer) (hc : s.clients[i]? = some (.writer w)) :
+    (s.step (.step i)).clients[i]? = some (.writer (wstep s.store s.clock s.nextTok i w).2.1) := by
+  rw [Sys.step_writer s i w hc]
+  show (s.clients.set i _)[i]? = _
+  rw [getElem?_set_of_some hc]; simp
+
+/-- is client `i` an unfinished writer -/
+def Sys.liveWriter (s : Sys) (i : Nat) : Bool :=
+  match s.clients[i]? with
+  | some (.writer w) => Decidable.decide (¬ w.finished)
+  | _ => false
+
+/-- number of `step i` events of a schedule that are executed while writer `i` is unfinished -/
+def ownSteps (i : Nat) : Sys → List Ev → Nat
+  | _, [] => 0
+  | s, e :: es => (match e with | .step j => if j = i ∧ s.liveWriter i = true then 1 else 0 | _ => 0) + ownSteps i (s.step e) es
+
+/-- in any schedule, writer `i` executes at most `measure` commands; afterwards its measure accounts for the rest -/
+theorem ownSteps_le (i : Nat) (s : Sys) (w : Writer) (hc : s.clients[i]? = some (.writer w)) (es : List Ev) :
+    ∃ w' : Writer, (s.run es).clients[i]? = some (.writer w') ∧ ownSteps i s es + w'.measure ≤ w.measure := by
+  induction es generalizing s w with
+  | nil => exact ⟨w, hc, by simp [ownSteps]⟩
+  | cons e es ih =>
+    by_cases he : e = .step i
+    · subst he
+      have hc' := Sys.step_clients_self_writer s i w hc
+      obtain ⟨w', hw', hle⟩ := ih (s.step (.step i)) _ hc'
+      refine ⟨w', hw', ?_⟩
+      by_cases hf : w.finished
+      · have hlive : s.liveWriter i = false := by simp [Sys.liveWriter, hc, hf]
+        rw [wstep_done _ _ _ _ _ hf] at hle
+        simp only [ownSteps, hlive]
+        simpa using hle
+      · have hlive : s.liveWriter i = true := by simp [Sys.liveWriter, hc, hf]
+        have hm := wstep_measure s.store s.clock s.nextTok i w hf
+        simp only [ownSteps, hlive]
+        simp only [and_self, if_true]
+        omega
+    · have hc' : (s.step e).clients[i]? = some (.writer w) := by rw [Sys.step_clients_of_ne s e i he]; exact hc
+      obtain ⟨w', hw', hle⟩ := ih (s.step e) w hc'
+      refine ⟨w', hw', ?_⟩
+      have h0 : (match e with | .step j => if j = i ∧ s.liveWriter i = true then 1 else 0 | _ => 0) = 0 := by
+        cases e with
+        | step j =>
+          have : ¬ j = i := fun e => he (by rw [e])
+          simp [this]
+        | expire k => rfl
+        | tick d => rfl
+      simp only [ownSteps, h0]
+      omega
+
+/-- number of `step i` events in a schedule -/
+def stepsOf (i : Nat) (es : List Ev) : Nat :=
+  (es.filter fun e => match e with | .step j => j == i | _ => false).length
+
+/-- a finished writer never moves again -/
+theorem finished_stable (i : Nat) (s : Sys) (w : Writer) (hc : s.clients[i]? = some (.writer w)) (hf : w.finished)
+    (es : List Ev) : (s.run es).clients[i]? = some (.writer w) := by
+  induction es generalizing s with
+  | nil => exact hc
+  | cons e es ih =>
+    apply ih (s.step e)
+    by_cases he : e = .step i
+    · subst he
+      rw [Sys.step_clients_self_writer s i w hc, wstep_done _ _ _ _ _ hf]
+    · rw [Sys.step_clients_of_ne s e i he]; exact hc
+
+/-- a writer that is scheduled at least `measure` times has returned, whatever else happens in between -/
+theorem finishes_of_stepsOf (i : Nat) (s : Sys) (w : Writer) (hc : s.clients[i]? = some (.writer w)) (es : List Ev)
+    (hn : w.measure ≤ stepsOf i es) : ∃ w' : Writer, (s.run es).clients[i]? = some (.writer w') ∧ w'.finished := by
+  induction es generalizing s w with
+  | nil =>
+    by_cases hf : w.finished
+    · exact ⟨w, hc, hf⟩
+    · have := Writer.measure_pos hf
+      simp [stepsOf] at hn; omega
+  | cons e es ih =>
+    by_cases hf : w.finished
+    · exact ⟨w, finished_stable i s w hc hf _, hf⟩
+    by_cases he : e = .step i
+    · subst he
+      have hc' := Sys.step_clients_self_writer s i w hc
+      have hcount : stepsOf i (Ev.step i :: es) = stepsOf i es + 1 := by simp [stepsOf]
+      apply ih (s.step (.step i)) _ hc'
+      have hm := wstep_measure s.store s.clock s.nextTok i w hf
+      omega
+    · have hc' : (s.step e).clients[i]? = some (.writer w) := by rw [Sys.step_clients_of_ne s e i he]; exact hc
+      have hcount : stepsOf i (e :: es) = stepsOf i es := by
+        cases e with
+        | step j =>
+          have : ¬ j = i := fun e => he (by rw [e])
+          simp [stepsOf, this]
+        | expire k => simp [stepsOf]
+        | tick d => simp [stepsOf]
+      exact ih (s.step e) w hc' (by omega)
+
+theorem Writer.start_measure (op : WOp) (tok : Nat) : (Writer.start op tok).measure = 75 := rfl
+
+/-! ## readers -/
+
+theorem mem_hmgetItems {st : RStore} {keys : List Nat} {r : Server} (h : r ∈ st.hmgetItems keys) :
+    ∃ k ∈ keys, st.items[k]? = some r := by
+  unfold RStore.hmgetItems at h
+  rw [List.mem_filterMap] at h
+  exact h
+
+theorem Sys.step_clients_self_reader (s : Sys) (i : Nat) (r : Reader) (hc : s.clients[i]? = some (.reader r)) :
+    (s.step (.step i)).clients[i]? = some (.reader (rstep s.store r)) := by
+  rw [Sys.step_reader s i r hc]
+  show (s.clients.set i _)[i]? = _
+  rw [getElem?_set_of_some hc]; simp
+
+/-! ## the ghost log: every commit decided on the row of the sequential replay -/
+
+/-- the result a writer is going to return, once its attempt has been decided -/
+def WPC.fin? : WPC → Option WResult
+  | .unwatch (.finished r) => some r
+  | .relWatch (.finished r) => some r
+  | .relGet (.finished r) => some r
+  | .relDel (.finished r) => some r
+  | .relUnwatch (.finished r) => some r
+  | .done r => some r
+  | _ => none
+
+/-- a decided writer stays decided on the same result, keeps its call and its commit flag, and reports no commit -/
+theorem wstep_fin (st : RStore) (clock : Int) (fresh i : Nat) (w : Writer) (r : WResult) (h : w.pc.fin? = some r) :
+    (wstep st clock fresh i w).2.1.pc.fin? = some r ∧ (wstep st clock fresh i w).2.1.op = w.op ∧
+      (wstep st clock fresh i w).2.1.committed = w.committed := by
+  cases hpc : w.pc with
+  | setnx => rw [hpc] at h; cases h
+  | watch => rw [hpc] at h; cases h
+  | ownGet v => rw [hpc] at h; cases h
+  | hget v => rw [hpc] at h; cases h
+  | exec v ex now b r' => rw [hpc] at h; cases h
+  | unwatch a =>
+    cases a with
+    | retry => rw [hpc] at h; cases h
+    | finished r' => rw [hpc] at h; cases h; simp [wstep, hpc, WPC.fin?]
+  | relWatch a =>
+    cases a with
+    | retry => rw [hpc] at h; cases h
+    | finished r' => rw [hpc] at h; cases h; simp [wstep, hpc, WPC.fin?]
+  | relGet a =>
+    cases a with
+    | retry => rw [hpc] at h; cases h
+    | finished r' =>
+      rw [hpc] at h; cases h; simp only [wstep, hpc]
+      split
+      · simp [WPC.fin?]
+      · split <;> simp [WPC.fin?]
+  | relDel a =>
+    cases a with
+    | retry => rw [hpc] at h; cases h
+    | finished r' => rw [hpc] at h; cases h; simp [wstep, hpc, WPC.fin?]
+  | relUnwatch a =>
+    cases a with
+    | retry => rw [hpc] at h; cases h
+    | finished r' => rw [hpc] at h; cases h; simp [wstep, hpc, WPC.fin?]
+  | done r' => rw [hpc] at h; cases h; simp [wstep, hpc, WPC.fin?]
+
+/-- a command that reports no commit leaves the commit flag alone -/
+theorem wstep_committed (st : RStore) (clock : Int) (fresh i : Nat) (w : Writer)
+    (h : (wstep st clock fresh i w).2.2.2 = none) : (wstep st clock fresh i w).2.1.committed = w.committed := by
+  cases hpc : w.pc with
+  | exec v ex now b r =>
+    simp only [wstep, hpc] at h ⊢
+    split
+    · rename_i hv; rw [if_pos hv] at h; cases h
+    · rfl
+  | setnx =>
+    simp only [wstep, hpc]
+    split
+    · rfl
+    · split <;> rfl
+  | watch => simp only [wstep, hpc]
+  | ownGet v =>
+    simp only [wstep, hpc]
+    split
+    · rfl
+    · split <;> rfl
+  | hget v => simp only [wstep, hpc]; split <;> rfl
+  | unwatch a => simp only [wstep, hpc]
+  | relWatch a => simp only [wstep, hpc]
+  | relGet a =>
+    simp only [wstep, hpc]
+    split
+    · rfl
+    · split <;> rfl
+  | relDel a => simp only [wstep, hpc]
+  | relUnwatch a =>
+    simp only [wstep, hpc]
+    cases a with
+    | finished r => rfl
+    | retry => simp only; split <;> rfl
+  | done r => simp only [wstep, hpc]
+
+/-- any event keeps a decided writer decided -/
+theorem Sys.step_fin_stable (s : Sys) (e : Ev) (j : Nat) (w : Writer) (r : WResult)
+    (hc : s.clients[j]? = some (.writer w)) (hf : w.pc.fin? = some r) :
+    ∃ w' : Writer, (s.step e).clients[j]? = some (.writer w') ∧ w'.op = w.op ∧ w'.committed = w.committed ∧
+      w'.pc.fin? = some r := by
+  by_cases he : e = .step j
+  · subst he
+    obtain ⟨h1, h2, h3⟩ := wstep_fin s.store s.clock s.nextTok j w r hf
+    exact ⟨_, Sys.step_clients_self_writer s j w hc, h2, h3, h1⟩
+  · exact ⟨w, by rw [Sys.step_clients_of_ne s e j he]; exact hc, rfl, rfl, hf⟩
+
+/-- an event that logs nothing does not raise a commit flag -/
+theorem Sys.step_committed_of_quiet (s : Sys) (e : Ev) (hlog : (s.step e).log = s.log) (j : Nat) (w' : Writer)
+    (hc' : (s.step e).clients[j]? = some (.writer w')) (hcm : w'.committed = true) :
+    ∃ w : Writer, s.clients[j]? = some (.writer w) ∧ w.committed = true := by
+  by_cases he : e = .step j
+  · subst he
+    cases hc : s.clients[j]? with
+    | none => rw [Sys.step_none s j hc, hc] at hc'; cases hc'
+    | some c =>
+      cases c with
+      | reader r => rw [Sys.step_clients_self_reader s j r hc] at hc'; cases hc'
+      | writer w =>
+        rw [Sys.step_clients_self_writer s j w hc] at hc'
+        cases hc'
+        refine ⟨w, rfl, ?_⟩
+        rw [← wstep_committed s.store s.clock s.nextTok j w ?_]; exact hcm
+        rw [Sys.step_writer s j w hc] at hlog
+        have hlog' : (match (wstep s.store s.clock s.nextTok j w).2.2.2 with | some c => s.log ++ [c] | none => s.log) = s.log := hlog
+        cases hcmt : (wstep s.store s.clock s.nextTok j w).2.2.2 with
+        | none => rfl
+        | some c =>
+          rw [hcmt] at hlog'
+          have : (s.log ++ [c]).length = s.log.length := congrArg List.length hlog'
+          simp at this
+  · rw [Sys.step_clients_of_ne s e j he] at hc'
+    exact ⟨w', hc', hcm⟩
+
+/-- what the ghost log records about a run that started from store `st0` -/
+structure LogInv (st0 : RStore) (s : Sys) : Prop where
+  /-- the rows are the logged batches replayed over the initial rows -/
+  rows : s.store.RowsEq (replay st0 s.log)
+  /-- the `n`-th commit: its writer has decided, on the row the replay of the first `n` commits leaves at its
+  address, exactly the logged batch and the result it returns; the batch writes that address -/
+  entries : ∀ (n : Nat) (c : Commit), s.log[n]? = some c →
+    ∃ (w : Writer) (now : Int) (r : WResult), s.clients[c.client]? = some (.writer w) ∧ w.committed = true ∧
+      w.pc.fin? = some r ∧ c.before = (replay st0 (s.log.take n)).items[w.key]? ∧
+      decide w.op c.before now = .inr (c.batch, r) ∧ c.batch.key = w.key
+  /-- a writer whose commit flag is up has a log entry -/
+  flagged : ∀ (i : Nat) (w : Writer), s.clients[i]? = some (.writer w) → w.committed = true →
+    ∃ c ∈ s.log, c.client = i
+  /-- every call commits at most once -/
+  once : (s.log.map (·.client)).Nodup
+
+theorem loginv_init {s : Sys} (h : Init s) : LogInv s.store s := by
+  refine ⟨?_, ?_, ?_, ?_⟩
+  · rw [h.logNil]; exact RStore.RowsEq.refl _
+  · intro n c hn; rw [h.logNil] at hn; simp at hn
+  · intro i w hc hcm; rw [(h.atStart i w hc).2] at hcm; cases hcm
+  · rw [h.logNil]; simp
+
+theorem loginv_step {st0 : RStore} {s : Sys} (h : Inv s) (hl : LogInv st0 s) (e : Ev) : LogInv st0 (s.step e) := by
+  rcases step_frame s e with ⟨i, w, b, r, ⟨_, hc, v, ex, now, hpc, hv⟩, heq⟩ | ⟨hrows, hlog⟩
+  · -- a commit by writer `i`
+    have hw := h.winv i w hc
+    have hbk : b.key = w.key := hw.execKey v ex now b r hpc
+    have hdec : decide w.op (s.store.items[w.key]?) now = .inr (b, r) := by
+      rw [← hw.readCur v ex now b r hpc hv.symm]; exact hw.execDecide v ex now b r hpc
+    have hcl : ∀ j : Nat, (s.commitBy i w b r).clients[j]? =
+        if j = i then some (.writer { w with pc := .unwatch (.finished r), committed := true }) else s.clients[j]? :=
+      fun j => getElem?_set_of_some hc _ j
+    have hnotin : ∀ c ∈ s.log, c.client ≠ i := by
+      intro c hcmem hci
+      obtain ⟨n, hn⟩ := List.getElem?_of_mem hcmem
+      obtain ⟨w0, _, r0, hc0, _, hf0, _⟩ := hl.entries n c hn
+      rw [hci, hc] at hc0; cases hc0
+      rw [hpc] at hf0; cases hf0
+    rw [heq]
+    refine ⟨?_, ?_, ?_, ?_⟩
+    · show (b.apply s.store).RowsEq (replay st0 (s.log ++ [(⟨i, s.store.items[w.key]?, b⟩ : Commit)]))
+      rw [replay_append]
+      exact b.apply_rows_congr hl.rows
+    · intro n c hn
+      have hn' : (s.log ++ [(⟨i, s.store.items[w.key]?, b⟩ : Commit)])[n]? = some c := hn
+      show ∃ (w' : Writer) (now : Int) (r' : WResult), (s.commitBy i w b r).clients[c.client]? = some (.writer w') ∧ _ ∧ _ ∧
+        c.before = (replay st0 ((s.log ++ [(⟨i, s.store.items[w.key]?, b⟩ : Commit)]).take n)).items[w'.key]? ∧ _ ∧ _
+      by_cases hlt : n < s.log.length
+      · rw [List.getElem?_append_left hlt] at hn'
+        obtain ⟨w0, now0, r0, hc0, hcm0, hf0, hb0, hd0, hk0⟩ := hl.entries n c hn'
+        have hne : c.client ≠ i := hnotin c (List.mem_of_getElem? hn')
+        refine ⟨w0, now0, r0, ?_, hcm0, hf0, ?_, hd0, hk0⟩
+        · rw [hcl]; simp [hne]; exact hc0
+        · rw [List.take_append_of_le_length (Nat.le_of_lt hlt)]; exact hb0
+      · have hge : s.log.length ≤ n := Nat.le_of_not_lt hlt
+        rw [List.getElem?_append_right hge] at hn'
+        have hn0 : n - s.log.length = 0 := by
+          rcases Nat.eq_zero_or_pos (n - s.log.length) with h0 | hpos
+          · exact h0
+          · rw [List.getElem?_eq_none (by simp; omega)] at hn'; cases hn'
+        rw [hn0] at hn'
+        cases hn'
+        have hn_eq : n = s.log.length := by omega
+        subst hn_eq
+        refine ⟨{ w with pc := .unwatch (.finished r), committed := true }, now, r, ?_, rfl, rfl, ?_, hdec, hbk⟩
+        · rw [hcl]; simp
+        · show s.store.items[w.key]? = _
+          rw [List.take_left' rfl, hl.rows.1]
+          rfl
+    · intro j wj hj hcm
+      rw [hcl] at hj
+      by_cases hji : j = i
+      · subst hji
+        exact ⟨(⟨j, s.store.items[w.key]?, b⟩ : Commit), by simp [Sys.commitBy], rfl⟩
+      · simp only [hji, if_false] at hj
+        obtain ⟨c, hcmem, hcc⟩ := hl.flagged j wj hj hcm
+        exact ⟨c, by simp [Sys.commitBy, hcmem], hcc⟩
+    · show ((s.log ++ [(⟨i, s.store.items[w.key]?, b⟩ : Commit)]).map (·.client)).Nodup
+      rw [List.map_append, List.nodup_append]
+      refine ⟨hl.once, by simp, ?_⟩
+      intro a ha b' hb'
+      simp at hb'
+      subst hb'
+      obtain ⟨c, hcmem, hca⟩ := List.mem_map.mp ha
+      intro hab
+      exact hnotin c hcmem (hca.trans hab)
+  · -- nothing logged, no row touched
+    refine ⟨?_, ?_, ?_, ?_⟩
+    · rw [hlog]; exact hrows.trans hl.rows
+    · intro n c hn
+      rw [hlog] at hn ⊢
+      obtain ⟨w0, now0, r0, hc0, hcm0, hf0, hb0, hd0, hk0⟩ := hl.entries n c hn
+      obtain ⟨w', hc', hop', hcm', hf'⟩ := Sys.step_fin_stable s e c.client w0 r0 hc0 hf0
+      refine ⟨w', now0, r0, hc', hcm'.trans hcm0, hf', ?_, ?_, ?_⟩
+      · show c.before = (replay st0 (s.log.take n)).items[w'.op.svr.addr.key]?
+        rw [hop']; exact hb0
+      · rw [hop']; exact hd0
+      · show c.batch.key = w'.op.svr.addr.key
+        rw [hop']; exact hk0
+    · intro j wj hj hcm
+      obtain ⟨w0, hc0, hcm0⟩ := Sys.step_committed_of_quiet s e hlog j wj hj hcm
+      rw [hlog]
+      exact hl.flagged j w0 hc0 hcm0
+    · rw [hlog]; exact hl.once
+
+theorem loginv_run {st0 : RStore} {s : Sys} (h : Inv s) (hl : LogInv st0 s) (es : List Ev) : LogInv st0 (s.run es) := by
+  induction es generalizing s with
+  | nil => exact hl
+  | cons e es ih => exact ih (inv_step h e) (loginv_step h hl e)
 
 end Swat4
